@@ -413,6 +413,8 @@ class Domain:
 
 class Interp:
     MAX_PATHS = 3000
+    RUN_BUDGET_S = 150       # wall clock for enumerating the paths of one routine; beyond it the analysis refuses
+    CALL_BUDGET = 400000     # inlined calls on one path (a routine that re-evaluates helpers combinatorially is not followed)
     MAX_DEPTH = 16
 
     def __init__(self, db, domain):
@@ -433,6 +435,7 @@ class Interp:
         self.callstack = []
         self.fwd = {}           # id(old abstract array) -> (old, new) after an in-place operation
         self._gen_stack = []    # generator bodies being run: {'items': [...], 'limit': n or None}
+        self.ncalls = 0
 
     def choose(self, n, label=''):
         i = len(self.trace)
@@ -453,7 +456,11 @@ class Interp:
         results = []
         prefix = []
         snap = self.dom.snapshot_state() if hasattr(self.dom, 'snapshot_state') else None
+        import time as _time
+        self._deadline = _time.time() + self.RUN_BUDGET_S
         while True:
+            if _time.time() > self._deadline:
+                raise AnalysisError('analysis budget (%d s) exceeded analysing %s: the paths of this routine are not enumerated' % (self.RUN_BUDGET_S, fi.qual))
             self._reset_run(prefix)
             if snap is not None:
                 self.dom.restore_state(snap)          # facts learnt from the branches of one path do not leak into the next
@@ -522,6 +529,9 @@ class Interp:
             return GenV(self, fi, args, kwargs, self_obj, closure)
         if self.depth >= self.MAX_DEPTH:
             return Unknown('inlining depth')
+        self.ncalls = getattr(self, 'ncalls', 0) + 1
+        if self.ncalls > self.CALL_BUDGET:
+            raise AnalysisError('call budget exceeded analysing %s (%d inlined calls on one path)' % (fi.qual, self.ncalls))
         if fi in self.callstack and not toplevel:
             return Unknown('recursion %s' % fi.qual)
         a = fi.node.args
@@ -804,6 +814,8 @@ class Interp:
         return None
 
     def call_method(self, recv, name, args, kwargs, node):
+        if name == '__getitem__' and len(args) == 1 and not kwargs and not isinstance(recv, (BuiltinRef, NTClass)):
+            return self.subscript(recv, args[0], node)          # seq.__getitem__ handed around as a function
         if isinstance(recv, BuiltinRef) and recv.name == 'dict' and name == 'fromkeys' and 1 <= len(args) <= 2:
             keys = self.iterate(args[0], node)
             if keys is not None:
@@ -857,6 +869,29 @@ class Interp:
                     v = args[1] if len(args) > 1 else Const(None)
                     recv.set(args[0], v)
                 return v
+            if name == 'pop' and 1 <= len(args) <= 2 and not isinstance(args[0], Unknown):
+                v = recv.get(args[0])
+                if v is None and recv.open:
+                    return Unknown('pop from a dictionary whose keys are not all known')
+                if v is None:
+                    return args[1] if len(args) > 1 else Unknown('pop of a missing key')
+                recv.entries = [(k, x) for k, x in recv.entries if not (k == args[0])]
+                return v
+            if name == 'copy' and not args and not recv.open:
+                d = DictV()
+                d.entries = list(recv.entries)
+                d.default_factory = getattr(recv, 'default_factory', None)
+                return d
+            if name == 'update' and len(args) <= 1 and not recv.open and (not args or (isinstance(args[0], DictV) and not args[0].open)):
+                for k, x in (args[0].entries if args else []):
+                    recv.set(k, x)
+                for k, x in kwargs.items():
+                    recv.set(Const(k), x)
+                return Const(None)
+            if name == 'clear' and not args:
+                recv.entries = []
+                recv.open = False
+                return Const(None)
             if name in ('keys', 'values', 'items') and recv.open:
                 return Unknown('%s of a dictionary whose keys are not all known' % name)
             if name == 'keys':
@@ -887,6 +922,8 @@ class Interp:
                 return Const(len(args[0].items))
             if isinstance(args[0], Const) and isinstance(args[0].v, (str, tuple, list)):
                 return Const(len(args[0].v))
+            if isinstance(args[0], DictV) and not args[0].open:
+                return Const(len(args[0].entries))
             return Unknown('len')
         if name == 'set' and len(args) <= 1 and not kwargs:
             if not args:
@@ -1534,6 +1571,10 @@ class Interp:
                 return self.deref(o.attrs[name]) if self.fwd else o.attrs[name]
             mi = self.db.method(o.ci, name)
             if mi is not None:
+                if any(d.endswith('cached_property') for d in mi.decorators):
+                    v = self.call_funcinfo(mi, [], {}, o, node)
+                    o.attrs[name] = v          # functools.cached_property: computed on first access, then an instance attribute
+                    return v
                 if 'property' in mi.decorators:
                     return self.call_funcinfo(mi, [], {}, o, node)
                 if 'staticmethod' in mi.decorators:
